@@ -1,6 +1,6 @@
 (* C09: the D phase of JFA training is exact EM: one E/M iteration never decreases the marginal
    likelihood of the training statistics under that phase's (diagonal, scalar-per-coordinate) factor
-   analysis model.  Statements fixed; proofs to be completed. *)
+   analysis model. *)
 From Coq Require Import Reals Lra List Lia Bool Arith.
 From BLE Require Import Num.Scalar Num.InstR Lib.Vec Model.FA Proofs.RLemmas Proofs.FAEnroll.
 Import ListNotations.
